@@ -455,7 +455,8 @@ def check_result(cfg, rr: RunResult, out: Outcome, tag: str, step: int, fault=No
     obs["converged"] = conv
 
     # ---- T: bounded number of linear solves
-    if seam.entries > cfg["num_iter"] + 2:
+    # liveness bound, deliberately generous (the statement names no solve count): no retry loop around a failing solve
+    if seam.entries > 3 * cfg["num_iter"] + 6:
         out.violate("C04.T", f"{cfg['method']}", step, tag=tag, solves=seam.entries, num_iter=cfg["num_iter"])
     return obs
 
